@@ -31,7 +31,7 @@ def parseLine (t : String) : Option FLine :=
 
 def parseLines (s : String) : Option (List FLine) := (s.splitOn ",").mapM parseLine
 
-def step (st : St) (op res : String) : St × List String :=
+def stepBasic (st : St) (op res : String) : St × List String :=
   match words op, (res.splitOn " ; ").map words with
   | ["freset"], _ => ({}, ["br:file.fresh-process"])
   | ["fsetup", proto, _, _], [[orc], [r]] =>
@@ -95,5 +95,53 @@ def step (st : St) (op res : String) : St × List String :=
            (if mr == o then [] else [s!"DIVERGE dom model={repr mr}"]) ++
            (if mon.2 then [] else [s!"FAIL C10 DHCPv6 client {mac} served {" ".intercalate r} but the file in force says {repr (m.bind (fun mm => listedFor mm (st.mon.f6.getD [])))}"]))
   | _, _ => (st, ["DIVERGE drift unparsed-op"])
+
+/-- `fhammer`: lookups racing with refreshes that alternate between two well-formed files A and B
+(see harness/filec.go). Every answer seen must be accepted — by the model and by the C10 monitor —
+in the state where A is in force or in the state where B is; the lookup made after everything went
+quiet must be accepted in the state where B is. -/
+def step (st : St) (op res : String) : St × List String :=
+  match words op with
+  | "fhammer" :: proto :: mac :: _ =>
+    match res.splitOn " ; " with
+    | [oa, ob, obs, fin] =>
+      match parseLines oa.trimAscii.toString, parseLines ob.trimAscii.toString with
+      | some la, some lb =>
+        let v6 := proto == "6"
+        let (sA, okA) := st.s.load v6 la
+        let stA : St := { s := sA, mon := (st.mon.step (.refresh v6 la)).1 }
+        let (sB, okB) := stA.s.load v6 lb
+        let stB : St := { s := sB, mon := (stA.mon.step (.refresh v6 lb)).1 }
+        if !(okA && okB) then (st, ["DIVERGE drift fhammer with a malformed file"])
+        else
+          let qop := if v6 then s!"fq6 {mac} 1 0" else s!"fq4 {mac}"
+          let accepts (c : St) (r : String) : Bool :=
+            !((stepBasic c qop r).2.any (fun m => m.startsWith "DIVERGE" || m.startsWith "FAIL"))
+          let answers := (obs.splitOn " | ").map (fun x => x.trimAscii.toString) |>.filter (· != "-")
+          let during := answers.filter (fun a => !a.startsWith "after:")
+          let after := (answers.filter (fun a => a.startsWith "after:")).map (fun a => (a.drop 6).toString)
+          let badDuring := during.filter (fun r => !(accepts stA r || accepts stB r))
+          let badAfter := after.filter (fun r => !accepts stB r)
+          let fin := fin.trimAscii.toString
+          let msgs :=
+            (if fin == "HANG" then
+              ["DIVERGE dom model=all-lookups-return",
+               "FAIL C01 a lookup in the static lease file, concurrent with refreshes of that file, never returned",
+               "FAIL C16 a lookup in the static lease file, concurrent with refreshes of that file, never returned (no serial order blocks)",
+               "FAIL C10 the static lease plugin stopped answering while its file was being refreshed"]
+             else if fin != "settled" then
+              ["DIVERGE dom model=replaced", "FAIL C10 a well-formed update of the lease file was not picked up",
+               "FAIL C16 a well-formed update of the lease file was not picked up under concurrent lookups"]
+             else []) ++
+            (badDuring.map (fun r => s!"FAIL C16 a lookup concurrent with refreshes was answered [{r}]: neither the old nor the new file says so")) ++
+            (badDuring.map (fun r => s!"FAIL C10 a lookup concurrent with refreshes was answered [{r}]: neither the old nor the new file says so")) ++
+            (badAfter.map (fun r => s!"FAIL C10 after the refreshes the client is served [{r}], not what the file in force lists")) ++
+            (badAfter.map (fun r => s!"FAIL C16 after the refreshes the client is served [{r}], not what the file in force lists")) ++
+            (if badDuring.isEmpty && badAfter.isEmpty then [] else ["DIVERGE dom model=answer-of-A-or-B"])
+          let both := during.any (accepts stA) && during.any (fun r => accepts stB r && !accepts stA r)
+          (stB, s!"br:fhammer{proto}" :: (if both then ["br:fhammer.old-and-new-seen"] else []) ++ msgs)
+      | _, _ => (st, ["DIVERGE drift unparsed-oracle"])
+    | _ => (st, ["DIVERGE drift unparsed-result"])
+  | _ => stepBasic st op res
 
 end Drv.File
